@@ -40,7 +40,7 @@ func c13WellFormed(rows []*models.Header) bool {
 	return ok
 }
 
-var c13Parents = []string{"", "/d", "/f", "/missing", "/d/sub"}
+var c13Parents = []string{"", "/d", "/f", "/missing", "/d/sub", "/d/s"}
 
 // Harness_C13_tree_stays_well_formed: from a well-formed tree, every creating or moving call leaves a
 // well-formed tree (Inv is inductive), whatever it returns.
@@ -50,6 +50,7 @@ func Harness_C13_tree_stays_well_formed() {
 	v.Env.AddEntry("/d", tar.TypeDir, 0, false, "")
 	v.Env.AddEntry("/f", tar.TypeReg, 0, false, "")
 	v.Env.AddEntry("/d/g", tar.TypeReg, 0, false, "")
+	v.Env.AddEntry("/d/s", tar.TypeDir, 0, false, "")
 	if vm.Bool("tombstone") {
 		v.Env.AddEntry("/t", tar.TypeDir, 0, true, "")
 	}
@@ -58,6 +59,13 @@ func Harness_C13_tree_stays_well_formed() {
 	pi := vm.Choice("parent", len(c13Parents))
 	comp := persisters.VerifComponent("N", 1, "abt")
 	name := c13Parents[pi] + "/" + comp
+	// equivalent spellings of the same path
+	switch vm.Choice("spelling", 3) {
+	case 1:
+		name = name[1:]
+	case 2:
+		name = "." + name
+	}
 	var err error
 	op := vm.Choice("op", 6)
 	switch op {
@@ -90,7 +98,7 @@ func Harness_C13_tree_stays_well_formed() {
 		// MkdirAll: the whole chain exists afterwards
 		found := false
 		for _, r := range rows {
-			if r.Deleted != 1 && r.Name == name && r.Typeflag == int64(tar.TypeDir) {
+			if r.Deleted != 1 && r.Name == c13Parents[pi]+"/"+comp && r.Typeflag == int64(tar.TypeDir) {
 				found = true
 			}
 		}
